@@ -111,7 +111,7 @@ INTRA_ORDERS = ('asc_station', 'desc_station', 'rot1')
 
 # envelope: a station must see the deck from at least this elevation above the deck plane, and
 # every sweep angle must be inside the station's field of view
-MIN_DECK_ELEVATION_DEG = 10.0
+MIN_DECK_ELEVATION_DEG = 0.5
 MAX_SWEEP_DEG = 60.0
 
 
